@@ -11,6 +11,7 @@ Action formats (JSON-able lists):
   ["dac_fault", n]                    next n DAC writes raise OSError (true = always)
   ["race", actor, topic, payload, delta]   the command is queued `delta` s before `actor`'s next timer fires, the
                                       timer fires while the command is still undelivered (stale-timer race), then settle
+                                      (delta < 0: the timer fires first and the command arrives before the fired call is delivered)
   ["burst", [[topic,payload],...]]    several commands queued back to back before anything is delivered
   ["queue", topic, payload]           queue a command without delivering anything
   ["settle"]                          deliver everything queued
@@ -159,6 +160,18 @@ class Runner:
                 self.at_settled()
                 return
             due = mine[0][0]
+            if delta < 0:
+                # the timer fires first, the command arrives before the fired call is delivered
+                if due > w.now_us:
+                    self.run_prompt((due - w.now_us) / 1e6 - 0.000001)
+                w.advance_to(due)
+                for e in w.due_timers():
+                    if e[2].owner == actor and not e[2].cancelled and not e[2].fired:
+                        w.fire(e)
+                s.mqtt_in(topic, payload)
+                w.settle(order=self.order)
+                self.at_settled()
+                return
             tgt = due - int(delta * 1e6)
             if tgt > w.now_us:
                 self.run_prompt((tgt - w.now_us) / 1e6)
@@ -266,7 +279,7 @@ def gen_action(rng: random.Random, profile: str = "general"):
         else:
             topic = rng.choice(list(SETTINGS))
             payload = rng.choice(SETTINGS[topic])
-        return ["race", actor, topic, payload, rng.choice([0.0, 0.3, 0.9])]
+        return ["race", actor, topic, payload, rng.choice([0.0, 0.3, 0.9, -1])]
     if x < 0.965:
         return ["lagcmd", rng.choice(["Disinfection", "Heating", "Swim", "Tank"]), rng.choice([1.5, 3.0]), "/settings/mode", rng.choice(MODES)]
     if x < 0.97:
